@@ -53,6 +53,28 @@ type c09Inst struct {
 	handlers map[string]http.HandlerFunc
 	hour     *atomic.Uint32
 	file     string
+
+	// idCalls counts the calls of Config.UnitID: it tells the harness that
+	// the hourly check has looked at the clock.
+	idCalls atomic.Int64
+	// gate, when set, is consulted by Config.ShouldCountClient, which GET
+	// /control/stats calls for every client while it builds the top clients
+	// (after it has released the database, still holding the configuration
+	// lock for reading): a harness-owned point to keep one read in flight.
+	gate atomic.Pointer[c09Gate]
+}
+
+// c09Gate keeps the first caller (while armed) until release is closed.
+type c09Gate struct {
+	armed   atomic.Bool
+	entered chan struct{}
+	release chan struct{}
+}
+
+func c09NewGate() *c09Gate {
+	g := &c09Gate{entered: make(chan struct{}), release: make(chan struct{})}
+	g.armed.Store(true)
+	return g
 }
 
 // c09Open creates the module through the exported constructor.  The logical
@@ -76,10 +98,19 @@ func c09OpenLog(file string, hour *atomic.Uint32, limitH uint32, enabled, startL
 	}
 	in = &c09Inst{handlers: map[string]http.HandlerFunc{}, hour: hour, file: file}
 	conf := Config{
-		Logger:            logger,
-		UnitID:            func() uint32 { return hour.Load() },
-		ConfigModified:    func() {},
-		ShouldCountClient: func([]string) bool { return true },
+		Logger: logger,
+		UnitID: func() uint32 {
+			in.idCalls.Add(1)
+			return hour.Load()
+		},
+		ConfigModified: func() {},
+		ShouldCountClient: func([]string) bool {
+			if g := in.gate.Load(); g != nil && g.armed.CompareAndSwap(true, false) {
+				close(g.entered)
+				<-g.release
+			}
+			return true
+		},
 		HTTPRegister: func(method, url string, h http.HandlerFunc) {
 			in.handlers[method+" "+url] = h
 		},
